@@ -39,7 +39,8 @@ RAW = {
                "responses": {"200": {"description": "ok"}}} for m in ("post", "put", "patch")},
     }},
 }
-METHOD = {"header": "GET", "query": "GET", "path": "DELETE", "cookie": "PATCH", "body": "POST", "json": "PUT", "form": "POST"}
+METHOD = {"header": "GET", "query": "GET", "path": "DELETE", "cookie": "PATCH", "body": "POST", "json": "PUT", "form": "POST", "auth": "GET"}
+SANITIZED_LEN = 2   # elements with strings up to this length are also printed with output sanitisation on
 _P: dict = {}
 
 
@@ -59,15 +60,16 @@ def _server():
     return _P["srv"]
 
 
-def _schema():
-    if "schema" not in _P:
+def _schema(sanitize: bool = False):
+    key = ("schema", sanitize)
+    if key not in _P:
         import schemathesis
         from schemathesis.core.output import OutputConfig
 
         s = schemathesis.openapi.from_dict(json.loads(json.dumps(RAW)))
-        s.configure(base_url=_server().base_url, output=OutputConfig(sanitize=False))
-        _P["schema"] = s
-    return _P["schema"]
+        s.configure(base_url=_server().base_url, output=OutputConfig(sanitize=sanitize))
+        _P[key] = s
+    return _P[key]
 
 
 def case_kwargs(el: dict) -> dict:
@@ -76,6 +78,8 @@ def case_kwargs(el: dict) -> dict:
     kw: dict = {"path_parameters": {"p": "a"}}
     if slot == "header":
         kw["headers"] = {"X-H": s}
+    elif slot == "auth":
+        kw["headers"] = {"Authorization": s}
     elif slot == "query":
         kw["query"] = {"q": s}
     elif slot == "path":
@@ -119,8 +123,16 @@ def observe(el: dict) -> dict:
         cmd = case.as_curl_command(headers=dict(response.request.headers), verify=verify)
     except Exception as exc:
         return {"cmd_error": "%s: %s" % (type(exc).__name__, str(exc)[:120])}
-    return {"cmd": cps(cmd.replace(auth, FIXED_AUTH)), "orig": project(log[0], auth, False), "orig_full": project(log[0], auth, True),
-            "verify": verify}
+    out = {"cmd": cps(cmd.replace(auth, FIXED_AUTH)), "orig": project(log[0], auth, False), "orig_full": project(log[0], auth, True),
+           "verify": verify}
+    if len(el["s"]) <= SANITIZED_LEN:
+        # the same request printed with output sanitisation on: only redacted values may differ
+        case_s = _schema(True)["/x/{p}"][METHOD[el["slot"]]].Case(**case_kwargs(el))
+        try:
+            out["cmd_sanitized"] = cps(case_s.as_curl_command(headers=dict(response.request.headers), verify=verify).replace(auth, FIXED_AUTH))
+        except Exception as exc:
+            out["cmd_sanitized_error"] = "%s: %s" % (type(exc).__name__, str(exc)[:120])
+    return out
 
 
 def _work(el: dict) -> dict:
@@ -280,9 +292,13 @@ def _own(headers) -> list:
     return sorted((n.lower(), v.strip(_WS)) for n, v in headers if n.lower() not in AUTO)
 
 
-def _same_headers(a, b) -> bool:
+def _same_headers(a, b, redact: bool = False) -> bool:
     ha, hb = any(n.lower() == "content-type" for n, _ in a), any(n.lower() == "content-type" for n, _ in b)
     oa, ob = _own(a), _own(b)
+    red = {n for n, v in oa if v == "[Filtered]"} if redact else set()
+    if sorted(n for n, _ in oa if n in red) != sorted(n for n, _ in ob if n in red):
+        return False
+    oa, ob = [h for h in oa if h[0] not in red], [h for h in ob if h[0] not in red]
     if ha == hb:
         return oa == ob
     return [h for h in oa if h[0] != "content-type"] == [h for h in ob if h[0] != "content-type"] and not hb
@@ -308,7 +324,7 @@ def py_verdict(o: dict) -> dict:
     elif rq["unknown"]:
         same, why = "U", "curl-outside-model"
     else:
-        d = (rq["method"] == om, rq["target"] == ot, rq["body"] == ob, _same_headers(rq["wire"], oh))
+        d = (rq["method"] == om, rq["target"] == ot, rq["body"] == ob, _same_headers(rq["wire"], oh, o.get("redact", False)))
         same = "T" if all(d) else "F"
         why = "" if all(d) else "method" if not d[0] else "url" if not d[1] else (
             "body-read-from-file" if rq["reads"] else "body") if not d[2] else "headers"
@@ -359,7 +375,7 @@ def attribute(fails: list[dict]) -> None:
 def judge(ctx: Ctx, observations: list[dict], name: str = "obs.json"):
     f = ctx.path(name)
     empty = {"method": [], "target": [], "headers": [], "body": []}
-    tlc.write_json(f, [{"cmd": o["cmd"], "orig": o["orig"], "hasExec": o["hasExec"], "nexec": o.get("nexec", 0),
+    tlc.write_json(f, [{"cmd": o["cmd"], "orig": o["orig"], "redact": o.get("redact", False), "hasExec": o["hasExec"], "nexec": o.get("nexec", 0),
                         "exec": o.get("exec", empty)} for o in observations])
     verdicts: dict[int, dict] = {}
     res = tlc.require_ok(tlc.run_tlc("CurlJudge", "CurlJudge.cfg", env={"OBS_FILE": f}, timeout=3000, want_prints=False,
@@ -420,9 +436,14 @@ def run(ctx: Ctx) -> Outcome:
             obs.append({"cmd": o["cmd"], "orig": o["orig_full"], "hasExec": True, **execs[i]})
         else:
             obs.append({"cmd": o["cmd"], "orig": o["orig"], "hasExec": False})
-    verdicts, jres = judge(ctx, obs)
+    n_plain = len(obs)
+    sanitized = [(i, o) for i, o in sendable if "cmd_sanitized" in o]
+    obs += [{"cmd": o["cmd_sanitized"], "orig": o["orig"], "hasExec": False, "redact": True} for _, o in sanitized]
+    all_verdicts, jres = judge(ctx, obs)
+    verdicts, verdicts_s = all_verdicts[:n_plain], all_verdicts[n_plain:]
+    obs, obs_s = obs[:n_plain], obs[n_plain:]
     mismatch = []
-    for (i, _), o, v in zip(sendable, obs, verdicts):
+    for (i, _), o, v in list(zip(sendable, obs, verdicts)) + list(zip(sanitized, obs_s, verdicts_s)):
         pv = py_verdict(o)
         if any(pv[k] != v[k] for k in ("same", "why", "model", "exec")):
             mismatch.append((cases[i]["slot"], text(cases[i]["s"]), pv, {k: v[k] for k in pv}))
@@ -447,6 +468,16 @@ def run(ctx: Ctx) -> Outcome:
         elif v["same"] == "F":
             fails.append({"i": i, "why": v["why"], "site": "%s:%s" % (v["why"], cases[i]["slot"]), "features": features(cases[i]),
                           "exec": v["exec"], "obs": o})
+    for (i, _), o, v in zip(sanitized, obs_s, verdicts_s):
+        if v["same"] == "U":
+            skipped[v["why"]] = skipped.get(v["why"], 0) + 1
+        elif v["same"] == "F":
+            fails.append({"i": i, "why": v["why"], "site": "sanitized:%s:%s" % (v["why"], cases[i]["slot"]), "features": features(cases[i]),
+                          "exec": "-", "obs": o})
+    for i, o in sendable:
+        if "cmd_sanitized_error" in o and cases[i]["fragment"]:
+            out.violations.append(Violation("C09:cmd:sanitized:exception:%s" % cases[i]["slot"], "no sanitised command printed for %s=%r: %s" % (
+                cases[i]["slot"], text(cases[i]["s"]), o["cmd_sanitized_error"]), {"element": cases[i]}))
     attribute(fails)
     for f in sorted(fails, key=lambda f: (f["site"], f["feature"], f["i"])):
         el = cases[f["i"]]
@@ -465,14 +496,17 @@ def run(ctx: Ctx) -> Outcome:
     pool = [(cases[i], o, v) for (i, _), o, v in zip(sendable, obs, verdicts) if v["same"] == "T" and features(cases[i])]
     out.coverage = {
         "states": res.distinct, "transitions": res.generated,
-        "traces_validated_against_impl": len(obs),
+        "traces_validated_against_impl": len(obs) + len(obs_s),
+        "commands_with_sanitisation_on": len(obs_s),
+        "commands_with_sanitisation_on_same_up_to_redaction": sum(1 for v in verdicts_s if v["same"] == "T"),
         "samples": [{"slot": c["slot"], "string": text(c["s"]), "command": text(o["cmd"]), "verdict": v["same"], "executed": o["hasExec"]}
                     for c, o, v in common.sample(rng, pool, 5)],
-        "evaluations": len(obs),
+        "evaluations": len(obs) + len(obs_s),
         "distinct_nontrivial": len({(cases[i]["slot"], tuple(cases[i]["s"])) for i, _ in sendable if features(cases[i])}),
         "rule": "every element of Curl.tla's family under %s (TLC-enumerated strings over {a ' \" \\ $ ` space newline @ ; : & %%} in the "
-                "header-value, query, path, cookie, text/JSON/form body slots); each built into a real case, sent, and its printed command "
-                "judged; non-trivial = the string contains a shell / curl significant character or is empty" % cfg,
+                "header-value, Authorization, query, path, cookie, text/JSON/form body slots); each built into a real case, sent, and its printed command "
+                "judged; non-trivial = the string contains a shell / curl significant character or is empty; strings of length <= %d are also printed with "
+                "output sanitisation on and compared up to [Filtered] values" % (cfg, SANITIZED_LEN),
         "exhaustive": True,
         "constants": {"cfg": cfg, "curl": "7.88.1", "sh": "/bin/sh"},
         "elements": len(cases),
@@ -480,6 +514,7 @@ def run(ctx: Ctx) -> Outcome:
         "commands_differ": len(fails),
         "executed_by_real_sh_and_curl": len(picks),
         "executed_strata": len({(cases[i]["slot"], features(cases[i])) for i in picks}),
+        "strata_total": len({(cases[i]["slot"], features(cases[i])) for i, _ in sendable}),
         "model_matches_real_tools": sum(1 for v in verdicts if v["model"] == "T"),
         "model_indefinite_on_executed": sum(1 for v in verdicts if v["model"] == "U"),
         "executed_same_as_original": sum(1 for v in verdicts if v["exec"] == "T"),
@@ -489,7 +524,8 @@ def run(ctx: Ctx) -> Outcome:
     out.assumptions = [
         "the loopback http.server reports the received request line, headers and body faithfully",
         "the original request is what the server received when the case was sent through the requests transport; the command is printed "
-        "from the headers of that very request (as the CLI does), output sanitisation off",
+        "from the headers of that very request (as the CLI does), output sanitisation off; with sanitisation on, a header printed as "
+        "[Filtered] matches any value of that header, everything else must be equal",
         "headers the HTTP clients add on their own (Host, User-Agent, Accept, Accept-Encoding, Connection, Content-Length, Transfer-Encoding, the "
         "test-case id header; curl's default Content-Type when the original has none) are not compared; field values are compared modulo "
         "surrounding blanks",
